@@ -43,6 +43,10 @@ T_LoginRecord == /\ IsEvent("LoginRecord")
 T_Prefix == /\ IsEvent("Prefix")
             /\ J07 => /\ E.need = E.n /\ E.ok = 0 /\ E.err = 0 /\ E.panic = 0       \* every proper prefix: not enough bytes
                       /\ E.full = "ok"                                               \* and the complete parse is unaffected
+\* a package behind an unknown token has no end of its own: however much of it has arrived, parsing reports
+\* not-enough-bytes - never success, never another error
+T_PrefixTL == /\ IsEvent("PrefixTL")
+              /\ J07 => /\ E.need = E.n /\ E.ok = 0 /\ E.err = 0 /\ E.panic = 0
 T_Mut == /\ IsEvent("Mut")
          /\ J10 => /\ E.panic = 0                                                   \* no input crashes a parser
                    /\ E.hang = 0                                                    \* every parser / the packet reader returns
@@ -51,7 +55,7 @@ T_Mut == /\ IsEvent("Mut")
                    /\ (E.declared > 0 => /\ "C10-alloc-declared-length" \in Acknowledged
                                          /\ KFUsed("C10-alloc-declared-length", l))
 T_CapErr == IsEvent("CapErr") /\ ~J06
-Next == T_Reset \/ T_Pkg \/ T_Data \/ T_LoginRecord \/ T_Prefix \/ T_Mut \/ T_CapErr
+Next == T_Reset \/ T_Pkg \/ T_Data \/ T_LoginRecord \/ T_Prefix \/ T_PrefixTL \/ T_Mut \/ T_CapErr
 Spec == Init /\ [][Next]_vars
 HW == HWOf(l)
 =============================================================================
